@@ -3,6 +3,7 @@ import Wayfind.Model.Errors
 import Wayfind.Generated.Facts
 import Wayfind.Proofs.ParseErrors
 import Wayfind.Proofs.CheckedParser3
+import Wayfind.Proofs.SearchC3
 
 /-! # C07 — no input makes the router panic
 The model is written with total list operations (`take`, `drop`, `getElem?`, truncated subtraction), so totality of
@@ -27,9 +28,18 @@ expander suffices: a potential `needE` bounds scan steps plus nested calls) (loo
 range ends inside the input, `group ≤ cursor`, an open parenthesis implies `group ≥ 1`; every recorded parameter starts
 at or before the cursor). The driver runs this transcription next to the list-based model on every `parse` operation
 of every run (class `checked`), and the list-based model is compared with the real crate.
+(6) *The search's index arithmetic and registry lookup are in range* (`C07_search_never_panics`):
+`Model/CheckedSearch.lean` is a second, position-based transcription of `src/node/search.rs`, loop by loop — the counter
+`consumed`, `path[consumed]`, `&path[..consumed]`, `&path[consumed..]`, `&path[prefix.len()..]`, the eagerly evaluated
+`path.len() - consumed` inside `unwrap_or`, `position(..)`, and `constraints.get(name).unwrap()` of `check_constraint`
+are explicit checks that yield `panic`. On every router reached through any history of API calls (clone steps included)
+no check fires, for every path and every constraint environment, and the result is the list-based model's
+`Node.search` (`C07_checked_search_is_model`: each `while` loop of the code computes `tryCands` over the candidate list
+— `candsInline` / `candsSegment` — that the model writes down directly; the registry lookup cannot miss because every
+constraint name stored in the tree belongs to a live template, whose names were registered when it was inserted,
+`live_consOK`).
 Status: **partial** — stack depth (recursion proportional to group nesting and tree depth), allocation failure, and
-`usize`/`i32` wrap-around (needs inputs ≥ 2^31 bytes) are outside any model; the slices of the search (`&path[..n]`,
-each guarded by the adjacent loop condition) and of insert/find/delete (`prefix[0]`, guarded by the non-empty-label
+`usize`/`i32` wrap-around (needs inputs ≥ 2^31 bytes) are outside any model; the slices of insert/find/delete (`prefix[0]`, guarded by the non-empty-label
 invariant of (3)) are not transcribed with checks; they, and the error renderer, are tied by running every operation of
 every suite under `catch_unwind` in a build with overflow checks and debug assertions (oracle C07 = a `panic` line). -/
 
@@ -105,3 +115,30 @@ theorem C07_expander_never_panics (input : Bytes) (fuel start end_ : Nat) (h : e
 /-- non-vacuity: the checks are live — outside the invariant they do fire (`)` at depth 1 with `cursor = group = 0`) -/
 example : expandLoopC [41] 5 0 1 0 0 1 [[]] = .error (.panic "expand: cursor - 1") := by
   simp [expandLoopC, getB, subC]
+
+/-- **`Router::search` never panics** on a router reached through any history of `constraint` / `insert` / `delete` /
+`clone` calls: in the checked, position-based transcription of `src/node/search.rs` no index, slice, `usize` subtraction
+or `constraints.get(name).unwrap()` fails, whatever the path (any bytes) and the constraint functions -/
+theorem C07_search_never_panics (r : Router) (L : List LiveT) (h : Live r L) (env : Env) (path : Bytes) (site : String) :
+    Node.searchC ⟨env, fun c => r.registry.any (·.1 == c)⟩ r.root path [] ≠ .error site := by
+  rw [live_searchC h env path []]
+  intro hh; cases hh
+
+/-- … and it computes what the list-based model computes (whose capture loops are candidate lists) -/
+theorem C07_checked_search_is_model (r : Router) (L : List LiveT) (h : Live r L) (env : Env) (path : Bytes) :
+    Node.searchC ⟨env, fun c => r.registry.any (·.1 == c)⟩ r.root path [] = .ok (Node.search env r.root path []) :=
+  live_searchC h env path []
+
+/-- tree level: any tree whose constraint names are known, any path — the loops' counter arithmetic alone -/
+theorem C07_search_loops_in_range (ce : CEnv) (n : Node) (h : Node.consOK ce.known n) (path : Bytes) (ps : Params) (site : String) :
+    Node.searchC ce n path ps ≠ .error site :=
+  Node.searchC_never_panics ce n h path ps site
+
+def isPanic : PRes → Bool | .error _ => true | .ok _ => false
+
+/-- non-vacuity: the checks are live — an unregistered constraint name in the tree does make the lookup fail, and a
+registered one does not -/
+example : isPanic (Node.searchC ⟨envT, fun _ => false⟩
+    (Node.insert Node.empty [.stat [47], .par .dynC {name := [97], cons := [117, 56]}] iw) [47, 49] []) = true ∧
+    isPanic (Node.searchC ⟨envT, fun _ => true⟩
+    (Node.insert Node.empty [.stat [47], .par .dynC {name := [97], cons := [117, 56]}] iw) [47, 49] []) = false := by decide
